@@ -486,3 +486,19 @@ def ref_cast(rules, doc):
                 if v in table:
                     ref_set(out, cp, table[v])
     return out
+
+
+def ref_get(path, doc, mod=None, multi=None):
+    """What `path` (+ datum / multiplicity modifier) selects in doc, as data paths present it without
+    concrete paths: a concrete path gives the node or None, a non-concrete one a list."""
+    sel = [v for v, _ in ref_walk(path, doc)]
+    if not sel:
+        return None if path_is_concrete(path) else []
+    vals = [ref_datum_mod(mod, v) for v in sel]
+    if path_is_concrete(path):
+        return vals[0]
+    if multi == "first":
+        return vals[0]
+    if multi == "last":
+        return vals[-1]
+    return vals
